@@ -124,6 +124,8 @@ pub struct StepCtx<'a> {
     pub ix: &'a Index,
     /// the reference evaluation used for this step's expectation (Get/GetAcc)
     pub eval: Option<&'a Eval<'a>>,
+    /// records of salsa's guarded trace hook produced by this step (main database only)
+    pub hooks: &'a [salsa::verif_hooks::TraceEvent],
 }
 
 pub trait Oracle {
@@ -189,6 +191,7 @@ pub fn run_seq(case: &Case, oracles: &mut [Box<dyn Oracle>], opts: &SeqOpts) -> 
     ix.digest(&pre, rev_num(&world.db), 0);
 
     let steps = expand(case);
+    salsa::verif_hooks::start();
     let mut fresh_world: Option<(usize, World)> = None;
     for (idx, step, probe) in steps.iter() {
         let idx = *idx;
@@ -275,6 +278,8 @@ pub fn run_seq(case: &Case, oracles: &mut [Box<dyn Oracle>], opts: &SeqOpts) -> 
         };
         let rev = rev_num(&world.db);
         let recs = world.take_log();
+        let hooks = salsa::verif_hooks::drain();
+        salsa::verif_hooks::start();
         let base = ix.pos;
         if std::env::var_os("VH_TRACE").is_some() {
             eprintln!("--- step {idx} {step:?} rev R{rev} -> {res:?}");
@@ -305,6 +310,7 @@ pub fn run_seq(case: &Case, oracles: &mut [Box<dyn Oracle>], opts: &SeqOpts) -> 
                 world: &world,
                 ix: &ix,
                 eval: eval_holder.as_ref(),
+                hooks: &hooks,
             };
             for o in oracles.iter_mut() {
                 violations.extend(o.step(&cx));
@@ -321,6 +327,7 @@ pub fn run_seq(case: &Case, oracles: &mut [Box<dyn Oracle>], opts: &SeqOpts) -> 
                 fw.reset_budget();
                 let fres = fw.get(key.0, key.1);
                 fw.take_log();
+                salsa::verif_hooks::start();
                 if let Some(v) = compare_fresh(idx, *key, real, &fres, want) {
                     violations.push(v);
                 }
@@ -333,6 +340,7 @@ pub fn run_seq(case: &Case, oracles: &mut [Box<dyn Oracle>], opts: &SeqOpts) -> 
         }
     }
     drop(fresh_world);
+    salsa::verif_hooks::drain();
     for o in oracles.iter_mut() {
         violations.extend(o.finish(case, &ix));
     }
